@@ -21,9 +21,20 @@ fn run_repl() {
         io::stdout().flush().unwrap();
         io::stdin().read_line(&mut buffer).unwrap();
 
-        // TODO: Error handling here
-        let ast = parse(&buffer).unwrap();
-        let code = compiler.compile_ast(&ast).unwrap();
+        let ast = match parse(&buffer) {
+            Ok(ast) => ast,
+            Err(e) => {
+                eprintln!("{e:?}");
+                continue;
+            }
+        };
+        let code = match compiler.compile_ast(&ast) {
+            Ok(code) => code,
+            Err(e) => {
+                eprintln!("{e:?}");
+                continue;
+            }
+        };
 
         match vm.run(code) {
             Ok(obj) => {
